@@ -409,7 +409,10 @@ func c20http(ip *interp.Interp, tag string, clients, reqs int, seed int64) (done
 				if i%2 == 0 {
 					hk := "Hk" + strings.ReplaceAll(u, "_", "x")
 					body := fmt.Sprintf(`{"%s": "v%d"}`, hk, i)
-					resp, err := httpc.Post(base+"/j", "application/json", strings.NewReader(body))
+					rq, _ := http.NewRequest("POST", base+"/j?p"+hk+"=1", strings.NewReader(body))
+					rq.Header.Set("Content-Type", "application/json")
+					rq.Header.Set("X-Req-"+hk, "1")
+					resp, err := httpc.Do(rq)
 					if err != nil {
 						addBad("POST: " + err.Error())
 						continue
@@ -421,7 +424,11 @@ func c20http(ip *interp.Interp, tag string, clients, reqs int, seed int64) (done
 					}
 				} else {
 					id := strings.ReplaceAll(u, "_", "x")
-					resp, err := httpc.Get(base + "/e/" + id)
+					// every request carries header and query names the process has never seen
+					rq, _ := http.NewRequest("GET", base+"/e/"+id+"?q"+id+"=1&r"+id+"=2", nil)
+					rq.Header.Set("X-Trace-"+id, "1")
+					rq.Header.Set("X-Span-"+id, "2")
+					resp, err := httpc.Do(rq)
 					if err != nil {
 						addBad("GET: " + err.Error())
 						continue
